@@ -53,7 +53,10 @@ def select(prop, t, sd):
     if t == 'quick': px = px[sd % 5::5]        # a fifth per seed in the quick tier, all of them in the thorough tier
     zp = corpus.zero_progress_family()
     if t == 'quick': zp = zp[sd % 2::2]
-    gs = cur + cov + nm + rec + pf + px + zp + rnd
+    # symbol twins (`token A='a'` referenced as 'a'): a third of the curated / coverage / recovery grammars per seed in quick, all in thorough
+    base = cur + cov + rec + pf
+    sym = [gram.symbolize(g) for i, g in enumerate(base) if t == 'thorough' or (i + sd) % 3 == 0]
+    gs = cur + cov + nm + rec + pf + px + zp + sym + rnd
     if prop in ('C04', 'C05'):
         gs = [g for g in gs if not (g.features() & {'pred', 'assert'})]
     if prop == 'C08':
